@@ -612,6 +612,10 @@ def eq(fr, l, r, node):
             d = [I.simp(l.bit(j) ^ R.bit(j)) for j in range(w)]
             if all(isinstance(x, F) and x.is_const for x in d):
                 return not any(x.c for x in d)
+            live = [x for x in d if not (isinstance(x, F) and x.is_const)]
+            if len(live) == 1 and isinstance(live[0], F) and not any(isinstance(x, F) and x.is_const and x.c for x in d):
+                # all other digits agree: equality is the negation of the one remaining difference bit — a linear boolean
+                return AInt([live[0] ^ 1], isbool=True)
             return ACond("eq", l, R)
         if rc is None:
             return False
